@@ -9,6 +9,7 @@ import (
 	"strconv"
 	"strings"
 	"sync"
+	"sync/atomic"
 	"time"
 
 	"verifmc/engine"
@@ -486,7 +487,7 @@ func init() {
 			return s
 		},
 		Run:  c14Run,
-		Rule: "Part A — schedules: real plush code (overlay: scheduling points at every function entry/loop head of the root package and at every mutex operation, sync replaced by a scheduler-aware shim) run under a cooperative scheduler; ALL interleavings with at most B preemptions are enumerated depth-first (choice-prefix replay; replay divergence is a hard error) for: one parsed template executed by 2 threads with own root contexts / with children of one shared parent (17 templates, one per construct class, different data per thread), Render of the same text with a cold cache, Parse vs CacheSet, a contentFor block stored on the shared parent by an earlier execution and run by contentOf in the children at the same time, + on a slice with spare capacity held by the shared parent, partial called with a data map held by the shared parent; oracle: every thread's (out, err) equals its solo result, no deadlock, no panic. Context operations: every pair of 2-operation threads over {Set(k,1), Set(k,2), Value(k), Has(k), Set(j,5), Value(j)} on one context with UNBOUNDED preemptions (as long as the scenario has at most 30 scheduling points, which holds on the unchanged tree; otherwise the largest bound fitting the budget); every recorded call/return history must be linearizable w.r.t. a sequential map (brute force); New() racing with Set/Value with bound 1. Part B — data races: the same scenario bodies free-running (the concurrent phase comes first in each process, solo results are computed afterwards, so lazily built tables are met cold) with 2, 8 and 32 goroutines in a separate -race build, repeated; any race report or 'concurrent map' fatal error is a violation attributed to the scenario. Non-trivial: all scenarios (>=2 threads).",
+		Rule: "Part A — schedules: real plush code (overlay: scheduling points at every function entry/loop head of the root package and at every mutex operation, sync replaced by a scheduler-aware shim) run under a cooperative scheduler; ALL interleavings with at most B preemptions are enumerated depth-first (choice-prefix replay; replay divergence is a hard error) for: one parsed template executed by 2 threads with own root contexts / with children of one shared parent (17 templates, one per construct class, different data per thread), Render of the same text with a cold cache, Parse vs CacheSet, a contentFor block stored on the shared parent by an earlier execution and run by contentOf in the children at the same time, + on a slice with spare capacity held by the shared parent, partial called with a data map held by the shared parent; oracle: every thread's (out, err) equals its solo result, no deadlock, no panic. Context operations: every pair of 2-operation threads over {Set(k,1), Set(k,2), Value(k), Has(k), Set(j,5), Value(j)} on one context with UNBOUNDED preemptions (as long as the scenario has at most 30 scheduling points, which holds on the unchanged tree; otherwise the largest bound fitting the budget); every recorded call/return history must be linearizable w.r.t. a sequential map (brute force); New() racing with Set/Value with bound 1. Part B — data races: the same scenario bodies (plus context mixes: readers / writers on one context, New vs Set, the first Set on a fresh child vs readers of it; executions that are all 300 template-function calls deep at the same moment) free-running (the concurrent phase comes first in each process, solo results are computed afterwards, so lazily built tables are met cold) with 2, 8 and 32 goroutines in a separate -race build, repeated; any race report or 'concurrent map' fatal error is a violation attributed to the scenario. Non-trivial: all scenarios (>=2 threads).",
 		Bound: func(th bool) string {
 			if th {
 				return "Part A: per scenario the largest preemption bound b with n^(b+1)/b! <= 2e8 scheduling points (n = points of the default schedule; reported per case, typically 2-3), 2 and 3 threads; context ops unbounded for 2 threads x 2 ops and 3 threads x 1 op, bound 3 for 3 threads (2+1+1 ops); Part B: 200 repetitions x {2,8,32} goroutines"
@@ -765,7 +766,7 @@ func RaceScenarioNames() []string {
 	for _, s := range c14Scenarios() {
 		n = append(n, s.name)
 	}
-	n = append(n, "context-readers-writers", "context-new-vs-set", "helpers-cache-mix")
+	n = append(n, "context-readers-writers", "context-new-vs-set", "helpers-cache-mix", "fresh-child-first-set-vs-readers", "deep-recursion-rendezvous")
 	return n
 }
 
@@ -823,6 +824,83 @@ func RunRaceScenario(name string, goroutines, reps int) string {
 				})
 			}
 			c14FreeRun(bodies)
+		}
+	case "fresh-child-first-set-vs-readers":
+		// one child straight from New(), nothing bound on it yet: its first Set meets Value / Has / New on the same child
+		for r := 0; r < reps; r++ {
+			root := plush.NewContext()
+			root.Set("x", 80)
+			child := root.New()
+			got := make([]string, goroutines)
+			var bodies []func()
+			for i := 0; i < goroutines; i++ {
+				i := i
+				bodies = append(bodies, func() {
+					switch i % 4 {
+					case 0:
+						child.Set(fmt.Sprintf("own%d", i), i)
+						got[i] = fmt.Sprint(child.Value("x"))
+					case 1:
+						got[i] = fmt.Sprint(child.Value("x"))
+					case 2:
+						child.Has("own0")
+						got[i] = fmt.Sprint(child.Has("x"), child.Value("x"))
+					case 3:
+						g := child.New()
+						got[i] = fmt.Sprint(g.Value("x"))
+						g.Set("mine", 1)
+					}
+				})
+			}
+			c14FreeRun(bodies)
+			for i, g := range got {
+				if want := map[int]string{0: "80", 1: "80", 2: "true 80", 3: "80"}[i%4]; g != want {
+					return fmt.Sprintf("goroutine %d read %q from the shared parent through the fresh child, expected %q", i, g, want)
+				}
+			}
+		}
+	case "deep-recursion-rendezvous":
+		// every execution is 300 template-function calls deep at the same moment (a helper at the bottom waits for the
+		// others): each still returns what it returns alone
+		for r := 0; r < reps && r < 2; r++ {
+			plush.CacheEnabled = false
+			tm, err := plush.NewTemplate(`<% let down = fn(n) { if (n == 0) { return meet() }
+ return down(n - 1) + 1 } %><%= down(300) %>|<%= x %>`)
+			if err != nil {
+				return "harness: " + err.Error()
+			}
+			var arrived int32
+			parent := c14Base()
+			parent.Set("meet", func() int {
+				atomic.AddInt32(&arrived, 1)
+				for deadline := time.Now().Add(30 * time.Second); atomic.LoadInt32(&arrived) < int32(goroutines) && time.Now().Before(deadline); {
+					time.Sleep(time.Millisecond)
+				}
+				return 0
+			})
+			got := make([]c14Res, goroutines)
+			var bodies []func()
+			for i := 0; i < goroutines; i++ {
+				i := i
+				child := parent.New()
+				bodies = append(bodies, func() {
+					for k, v := range c14Data(i) {
+						child.Set(k, v)
+					}
+					out, err := tm.Exec(child)
+					got[i] = c14Res{out, errStr(err)}
+				})
+			}
+			c14FreeRun(bodies)
+			for i, g := range got {
+				if want := (c14Res{fmt.Sprintf("300|%d", 10*(i+1)), "<nil>"}); g != want {
+					// which execution is hit depends on timing: the report names the failure, not the goroutine
+					if g.err != "<nil>" {
+						return fmt.Sprintf("an execution failed with %q while %d executions were 300 calls deep at the same time; alone it renders 300|<x>", g.err, goroutines)
+					}
+					return fmt.Sprintf("an execution rendered something else than alone while %d executions were 300 calls deep at the same time", goroutines)
+				}
+			}
 		}
 	case "helpers-cache-mix":
 		for r := 0; r < reps; r++ {
